@@ -185,7 +185,7 @@ func c14FixedOrder(r *an.Run, rule string) {
 			continue
 		}
 		n++
-		r.Check(strings.HasSuffix(an.Path(mu.Key), ".Absolute"), short(f)+"|dedupe-key", mu.Pos(), "targets are de-duplicated by their absolute path (key %q)", an.Path(mu.Key))
+		r.Check(loadedField(mu.Key) == "Absolute", short(f)+"|dedupe-key", mu.Pos(), "targets are de-duplicated by their absolute path (key field %q)", loadedField(mu.Key))
 	}
 	r.Check(n == 1, short(f)+"|dedupe", f.Pos(), "one de-duplication map (found %d updates)", n)
 	// sort.Slice with a less comparing .Absolute with <
@@ -202,7 +202,7 @@ func c14FixedOrder(r *an.Run, rule string) {
 			good := false
 			for _, ret := range an.Returns(less) {
 				if cmp, ok := ret.Results[0].(*ssa.BinOp); ok && (cmp.Op == token.LSS || cmp.Op == token.GTR) &&
-					strings.HasSuffix(an.Path(cmp.X), ".Absolute") && strings.HasSuffix(an.Path(cmp.Y), ".Absolute") {
+					loadedField(cmp.X) == "Absolute" && loadedField(cmp.Y) == "Absolute" {
 					good = true
 				}
 			}
